@@ -27,6 +27,8 @@ TECHNIQUE = "bounded exhaustive enumeration (E1) of all 2x2 tables up to a total
 ASSUMPTIONS = ["the all-zero table is reached through empty / all-missing vectors only (not as Python ints)"]
 
 VALS = [0.0, 1.0, 1.5, 2.0, 3.0, float("nan")]
+# not equal to a threshold, but within any plausible floating-point tolerance of it (the event definitions are exact comparisons)
+NEAR = [1.0 + 1e-7, 2.0 - 1e-7]
 T1, T2 = 1.0, 2.0
 
 
@@ -114,8 +116,9 @@ COMPLEMENT = {"above": "below=", "below=": "above", "above=": "below", "below": 
 
 def h_vectors(ctx):
     n = ctx.choose("length", list(range(0, ctx.params["maxlen"] + 1)), free=True)
-    obs = [ctx.choose("obs%d" % i, VALS, free=True) for i in range(n)]
-    fcst = [ctx.choose("fcst%d" % i, VALS, free=True) for i in range(n)]
+    vals = VALS + (NEAR if ctx.params.get("near") else [])
+    obs = [ctx.choose("obs%d" % i, vals, free=True) for i in range(n)]
+    fcst = [ctx.choose("fcst%d" % i, vals, free=True) for i in range(n)]
     bin_type = ctx.choose("bin", BIN_TYPES, free=True)
     ctx.note("obs", obs)
     ctx.note("fcst", fcst)
@@ -231,7 +234,8 @@ def h_cli(ctx):
 def plan(tier):
     q = tier == "quick"
     return [("tables", h_tables, {"tables": tables(8 if q else 20)}),
-            ("vectors", h_vectors, {"maxlen": 2 if q else 3}),
+            ("vectors", h_vectors, {"maxlen": 2, "near": True} if q else {"maxlen": 3}),
+            ] + ([] if q else [("vectors-near", h_vectors, {"maxlen": 2, "near": True})]) + [
             ("cli", h_cli, {"tables": tables(4 if q else 7)})]
 
 
@@ -243,11 +247,12 @@ def run(tier, only=None):
         t0 = time.time()
         st = explore.explore(h, mode="full", params=params, repo_root=core.REPO, time_cap=(300 if tier == "quick" else 3000))
         bound = {"tables": "all %d tables with 1 <= total <= %d x 4 number forms" % (len(params.get("tables", [])), max(sum(t) for t in params["tables"])) if "tables" in params else "",
-                 "vectors": "all vector pairs of length <= %s over {0,1,1.5,2,3,NaN} x 8 bin types" % params.get("maxlen"),
+                 "vectors": "all vector pairs of length <= %s over {0,1,1.5,2,3,NaN%s} x 8 bin types" % (params.get("maxlen"), ", 1+1e-7, 2-1e-7" if params.get("near") else ""),
+                 "vectors-near": "all vector pairs of length <= %s over {0,1,1.5,2,3,NaN, 1+1e-7, 2-1e-7} x 8 bin types" % params.get("maxlen"),
                  "cli": "all %d tables x 8 bin types x 25 metrics through the driver" % len(params.get("tables", []))}[name]
         subs.append(core.Sub.from_e1(name, st, bound=bound,
                                      rule="one execution = one table / vector pair / realised table; 25 metrics each; non-trivial = at least one pair",
-                                     required_flags={"tables": ("perfect",), "vectors": ("perfect", "swap", "complement"), "cli": ()}[name],
+                                     required_flags={"tables": ("perfect",), "vectors": ("perfect", "swap", "complement"), "vectors-near": ("perfect", "swap", "complement"), "cli": ()}[name],
                                      wall=time.time() - t0))
     return subs
 
